@@ -24,11 +24,23 @@ CONTENT = {
     "tag-after-header-valid": "OPENQASM 3.0;\n// pyqasm: ignore\nqubit[2] q;\nh q[0];\n",
     "invalid-qasm2": "OPENQASM 2.0;\ninclude \"qelib1.inc\";\nqreg q[1];\nfor int i in [0:1] { h q[0]; }\n",
     "text": "just some text, not a program\n",
+    # the scan for the tag stops at the first line CONTAINING the version keyword, wherever it stands on the line
+    "indented-header-tag-after-invalid": "  OPENQASM 3.0;\n// pyqasm: ignore\nqubit[2] q;\nh r[0];\n",
+    "comment-then-header-tag-after-invalid": "/* generated */ OPENQASM 3.0;\nqubit[2] q;\n// pyqasm: ignore\nh r[0];\n",
+    "tab-header-tag-after-valid": "\tOPENQASM 3.0;\n// pyqasm: ignore\nqubit[2] q;\nh q[0];\n",
+    "tag-on-header-line-invalid": "OPENQASM 3.0; // pyqasm: ignore\nqubit[2] q;\nh r[0];\n",
+    "tag-with-leading-text-invalid": "// note // pyqasm: ignore\nOPENQASM 3.0;\nqubit[2] q;\nh r[0];\n",
+    "blank-lines-then-tag-invalid": "\n\n// pyqasm: ignore\nOPENQASM 3.0;\nqubit[2] q;\nh r[0];\n",
+    "keyword-in-comment-then-tag-invalid": "// OPENQASM program below\n// pyqasm: ignore\nOPENQASM 3.0;\nqubit[2] q;\nh r[0];\n",
 }
 # (ignored by tag?, passes loads+validate?)
 TRUTH = {"valid": (False, True), "invalid": (False, False), "unparsable": (False, False), "tagged-valid": (True, True),
          "tagged-invalid": (True, False), "tag-after-header-invalid": (False, False), "tag-after-header-valid": (False, True),
-         "invalid-qasm2": (False, False), "text": (False, False)}
+         "invalid-qasm2": (False, False), "text": (False, False),
+         "indented-header-tag-after-invalid": (False, False), "comment-then-header-tag-after-invalid": (False, False),
+         "tab-header-tag-after-valid": (False, True), "tag-on-header-line-invalid": (True, False),
+         "tag-with-leading-text-invalid": (True, False), "blank-lines-then-tag-invalid": (True, False),
+         "keyword-in-comment-then-tag-invalid": (False, False)}
 NAMES = ["a.qasm", "b.qasm", "sub/c.qasm", "sub/deep/d.qasm", "x.qasm.bak", "notes.txt", "sub/e.QASM", "qasm", "dir.qasm/f.qasm",
          ".hidden/g.qasm", ".draft.qasm", "sub/.cache/h.qasm", "we[i]rd/k.qasm", "sp ace/m.qasm", "sub/n*.qasm"]
 
